@@ -4,6 +4,7 @@ import (
 	"bytes"
 	"encoding/binary"
 	"encoding/gob"
+	"errors"
 	"fmt"
 	"sync"
 
@@ -86,6 +87,27 @@ func (idx *BigIndexWriter) AddRow(values map[string]string) (uint32, error) {
 	}
 
 	return rowID, nil
+}
+
+// Close releases the writer's pending transaction on the temporary database, if there is
+// one (i.e. if the writer is abandoned before Flush). Without it, closing the temporary
+// database blocks for ever. It is safe to call Close after Flush.
+func (idx *BigIndexWriter) Close() error {
+	idx.mtx.Lock()
+	defer idx.mtx.Unlock()
+
+	if idx.tempTx == nil {
+		return nil
+	}
+
+	err := idx.tempTx.Rollback()
+	idx.tempTx = nil
+
+	if errors.Is(err, bbolt.ErrTxClosed) {
+		return nil
+	}
+
+	return err
 }
 
 func (idx *BigIndexWriter) Flush() error {
